@@ -16,22 +16,30 @@ def series_of(sym: int) -> np.ndarray:
     return np.array([float(sym), float(sym) + 10.0, float(sym) + 20.0])
 
 
-def table_case(D, E, V, w, f, sim, real, ktab, rng) -> dict:  # noqa: N803
+def table_case(D, E, V, w, f, sim, real, ktab, rng, typed=None) -> dict:  # noqa: N803
     """one compute_loss call of a BaseLoss subclass whose single-coordinate loss is the table ktab"""
     from black_it.loss_functions.base import BaseLoss
 
     calls = []
     lut = {tuple(r[:-1]): r[-1] for r in ktab}
 
+    typed = (rng.random() < 0.3) if typed is None else typed       # integer-typed data (a model returning counts) with filters that return non-integers
+
+    def sym_of(x) -> int:
+        x = float(x)
+        return int(np.ceil(x)) if x != np.floor(x) else int(x)      # a filtered value is its symbol minus one half (typed mode)
+
     class TableLoss(BaseLoss):
         def compute_loss_1d(self, sim_data_ensemble, real_data):
-            key = [int(sim_data_ensemble[m][0]) for m in range(sim_data_ensemble.shape[0])] + [int(real_data[0])]
+            key = [sym_of(sim_data_ensemble[m][0]) for m in range(sim_data_ensemble.shape[0])] + [int(real_data[0])]
             calls.append(key)
-            return float(lut[tuple(key)])
+            return float(lut.get(tuple(key), -77))
 
     def mk_filter(tab):
         if tab is None:
             return None
+        if typed:
+            return lambda s: series_of(tab[int(s[0])]) - 0.5
         return lambda s: series_of(tab[int(s[0])])
 
     filters = [mk_filter(t) for t in f]
@@ -39,6 +47,8 @@ def table_case(D, E, V, w, f, sim, real, ktab, rng) -> dict:  # noqa: N803
     loss = TableLoss(coordinate_weights=weights, coordinate_filters=filters if any(t is not None for t in f) or rng.random() < 0.5 else None)
     sim_arr = np.stack([np.stack([series_of(sim[m][i]) for i in range(D)], axis=1) for m in range(E)])   # (E, N, D)
     real_arr = np.stack([series_of(real[i]) for i in range(D)], axis=1)                                  # (N, D)
+    if typed:
+        sim_arr, real_arr = sim_arr.astype(np.int64), real_arr.astype(np.int64)
     ks, kr = sim_arr.copy(), real_arr.copy()
     st0 = ckpt.h(ckpt.deep(loss.__dict__))
     with quiet():
@@ -67,7 +77,7 @@ def table_case(D, E, V, w, f, sim, real, ktab, rng) -> dict:  # noqa: N803
     return {"e": "table", "D": D, "E": E, "w": wi, "f": ftab, "sim": [list(s) for s in sim], "real": list(real), "ktab": ktab,
             "loss": li if abs(scaled - li) < 1e-9 else -999999, "calls": calls,
             "inputsame": bool(np.array_equal(ks, sim_arr) and np.array_equal(kr, real_arr)),
-            "statesame": st0 == ckpt.h(ckpt.deep(loss.__dict__)), "wdefault": w is None, "reusedok": reused_ok}
+            "statesame": st0 == ckpt.h(ckpt.deep(loss.__dict__)), "wdefault": w is None, "reusedok": reused_ok, "typed": typed}
 
 
 def table_traces(tier: str, rng: random.Random) -> list[list[dict]]:
@@ -279,12 +289,12 @@ def replay(rep: dict) -> int:
         e = t[0]
         V = max(max(r[:-1]) for r in e["ktab"]) + 1  # noqa: N806
         f = [None if x == list(range(V)) else x for x in e["f"]]
-        new = [table_case(e["D"], e["E"], V, None if e.get("wdefault") else e["w"], f, e["sim"], e["real"], e["ktab"], rng)]
+        new = [table_case(e["D"], e["E"], V, None if e.get("wdefault") else e["w"], f, e["sim"], e["real"], e["ktab"], rng, typed=e.get("typed", False))]
     elif t and t[0]["e"] == "badlen":
         new = badlen_trace(rng)
     else:
         new = builtin_trace(rng)
-    res = tlc.validate("LossInterfaceTrace", "LossInterfaceTrace.cfg", {"traces": [[{k: v for k, v in e.items() if k not in ("name", "wdefault")} for e in new]]})
+    res = tlc.validate("LossInterfaceTrace", "LossInterfaceTrace.cfg", {"traces": [[{k: v for k, v in e.items() if k not in ("name", "wdefault", "typed")} for e in new]]})
     chk.add_validation(res)
     for _tid, why in res["rejected"].items():
         chk.violation("replay", why["why"], {"trace": new})
